@@ -79,8 +79,10 @@ class SrcScenario:
         p = rigs.nak(self._conf0, 0, self.S if scope_end is None else scope_end, reqs)
         return self._deliver(p, ("NAK", reqs))
 
-    def ack_eof(self, cond=ConditionCode.NO_ERROR):
-        return self._deliver(rigs.ack(self._conf0, DirectiveType.EOF_PDU, cond), ("ACKEOF",))
+    def ack_eof(self, cond=ConditionCode.NO_ERROR, status=None):
+        if status is None:
+            return self._deliver(rigs.ack(self._conf0, DirectiveType.EOF_PDU, cond), ("ACKEOF",))
+        return self._deliver(rigs.ack(self._conf0, DirectiveType.EOF_PDU, cond, status), ("ACKEOF", int(status)))
 
     def fin(self, cond=ConditionCode.NO_ERROR, delivery=DeliveryCode.DATA_COMPLETE,
             status=FileStatus.FILE_RETAINED):
